@@ -91,7 +91,7 @@ fn real_main() {
             println!("name {} {}", i, hex((e.ser_type_name)().as_bytes()));
         }
         for (i, e) in sreg.iter().enumerate() {
-            println!("sname {} {} {} {}", i, hex((e.vec_name)().as_bytes()), hex((e.wrap_name)().as_bytes()), hex((e.wrape_name)().as_bytes()));
+            println!("sname {} {} {} {} {}", i, hex((e.vec_name)().as_bytes()), hex((e.wrap_name)().as_bytes()), hex((e.wrape_name)().as_bytes()), hex((e.wrapm_name)().as_bytes()));
         }
         return;
     }
@@ -124,6 +124,10 @@ fn real_main() {
                 Some(format!("hash {} {}", a, b))
             }
             ["layout", i] => Some(format!("layout {}", (reg[i.parse::<usize>().unwrap()].layout)())),
+            ["schemaat", i, k, val] => Some(match parse(val) {
+                Some(t) => format!("schema {}", (reg[i.parse::<usize>().unwrap()].schemaat)(&t, k.parse().unwrap())),
+                None => "badval".into(),
+            }),
             ["schema", i, val] => Some(match parse(val) {
                 Some(t) => format!("schema {}", (reg[i.parse::<usize>().unwrap()].schema)(&t)),
                 None => "badval".into(),
@@ -183,6 +187,7 @@ fn real_main() {
                 Some(f) => f(&(if *h == "DIR" { b"<dir>".to_vec() } else { unhex(h) }), loader, reps.parse().unwrap()),
                 None => "badval".into(),
             }),
+            ["bigfile", kind, spec, loader, prefix] => Some(epsh::ops::bigfile(kind, spec, loader, prefix)),
             ["dropcheck", loader, n] => Some(epsh::ops::dropcheck(loader, n.parse().unwrap())),
             ["fload", i, loader, h] => Some(match reg[i.parse::<usize>().unwrap()].fload {
                 Some(f) => f(&unhex(h), loader),
